@@ -277,6 +277,10 @@ func genC17(seed int64, tier string) *Scenario {
 			}
 			sc.Knobs["batch"] = b
 		}
+		if r.Intn(3) == 0 {
+			sc.Knobs["dirty"] = true
+			sc.Knobs["dirty_text"] = []string{"local fine = = 1\nprint(fine)\n", "local fine = 1\nlocal other_unused = 2\nprint(fine)\n", "print(fine\n"}[r.Intn(3)]
+		}
 	case "first-swallowed":
 		// the start-up didChangeConfiguration (which the server ignores by design) carries settings
 		// that differ from the initialization options; incremental updates follow, no second change
@@ -522,6 +526,25 @@ func checkC17(t *testing.T, sc *Scenario) *Verdict {
 				return fail(fb, "batch-events fresh")
 			}
 			if vv := cmp("c17-history-differs-from-fresh", "watched-files batch under the configuration", hb.View, fb.View, extra); vv != nil {
+				return vv
+			}
+		}
+		if dirtyKnob, _ := sc.Knobs["dirty"].(bool); dirtyKnob {
+			// a document with an unsaved edit (with or without a syntax error in the buffer) is open
+			// while the configuration arrives through a settings change: what the client holds must
+			// be the filter of what it holds with every check on and the same unsaved edit
+			text, _ := sc.Knobs["dirty_text"].(string)
+			dops := []Op{{Kind: "open", Path: "ok.lua"}, {Kind: "change", Path: "ok.lua", Edits: []Edit{{Full: true, Text: text}}}}
+			db := run(&Scenario{Files: sc.Files, InitOpts: allEnabled().initOpts(), FirstCfg: true, Ops: append(append([]Op{}, dops...), Op{Kind: "config", Params: c.settings()})})
+			if db.Outcome != OutOK {
+				return fail(db, "dirty settings-change")
+			}
+			dbase := run(&Scenario{Files: withoutIgnoredFiles(sc.Files, c), InitOpts: allEnabled().initOpts(), Ops: dops})
+			if dbase.Outcome != OutOK {
+				return fail(dbase, "dirty all-enabled")
+			}
+			filterCfg = &c
+			if vv := cmp("c17-not-a-filter", "settings change over an unsaved buffer", db.View, filterView(dbase.View, c), extra+specialGate(c)); vv != nil {
 				return vv
 			}
 		}
